@@ -31,6 +31,7 @@ def plan(tier, seed):
     specs += [{"kind": "containers", "n": 250 if tier == "quick" else 2500} for _ in range(n // 2)]
     specs += [{"kind": "programs", "n": 1200 if tier == "quick" else 12000} for _ in range(n // 2)]
     specs += [{"kind": "suite"}]
+    specs += [{"kind": "routes", "n": 150 if tier == "quick" else 1500} for _ in range(2 if tier == "quick" else 8)]
     specs += [{"kind": "large", "n": 40 if tier == "quick" else 400} for _ in range(2 if tier == "quick" else 6)]
     specs += [{"kind": "mutseq", "n": 600 if tier == "quick" else 6000} for _ in range(2 if tier == "quick" else 8)]
     return specs
@@ -43,7 +44,11 @@ MUST_HAVE = [("int", 2**53), ("int", 2**53 + 1), ("dec", float(2**53)), ("int", 
              ("set", (("dec", 1.0),)), ("map", ((("int", 1), ("int", 2)),)),
              ("map", ((("dec", 1.0), ("dec", 2.0)),)), ("int", 10**30), ("dec", 1e30),
              ("int", 10**30 + 1), ("str", "a"), ("pat", "a"), ("date", (2020, 1, 1, 0, 0, 0)),
-             ("str", "20200101000000"), ("int", 2**63), ("dec", float(2**63)), ("int", 2**63 + 1)]
+             ("str", "20200101000000"), ("int", 2**63), ("dec", float(2**63)), ("int", 2**63 + 1),
+             # the same content under another kind: empty object / map / list / set / string, one member named like one key
+             ("obj", ()), ("obj", (("a", ("int", 1)),)), ("map", ((("str", "a"), ("int", 1)),)), ("obj", (("a", ("dec", 1.0)),)),
+             ("list", (("str", "a"), ("int", 1))), ("set", (("str", "a"),)), ("list", (("list", (("str", "a"), ("int", 1))),)),
+             ("pat", ""), ("str", "NULL"), ("str", "TRUE"), ("list", (("null",),)), ("set", (("null",),))]
 
 KINDS_ALL = ["null", "bool", "int", "dec", "str", "date", "pat"]
 # decimals that differ by a few units in the last place: equal only if identical
@@ -356,6 +361,166 @@ def run_programs(spec, ctx):
         ctx.sample_maybe({"a": sa, "b": sb, "reference_equal": want}, 0.01)
 
 
+def _jsonable(v, top=True):
+    k = v[0]
+    if k in ("bool", "int", "str"):
+        return True
+    if k == "dec":
+        return v[1] == v[1] and abs(v[1]) < 1e15 and v[1] != 0 or str(v[1]) == "0.0"
+    if k == "list":
+        return all(_jsonable(x, False) for x in v[1])
+    if k == "map":
+        return all(kk[0] == "str" and _jsonable(vv, False) for kk, vv in v[1])
+    return False
+
+
+def _textable(v):
+    """values whose text evaluates to them again (C08's data values, minus dates)"""
+    if v[0] in ("list", "set"):
+        return all(_textable(x) for x in v[1])
+    if v[0] == "map":
+        return all(_textable(a) and _textable(b) for a, b in v[1])
+    return v[0] in ("null", "bool", "int", "dec", "str")
+
+
+def _json_text(v, r):
+    import json
+    k = v[0]
+    if k == "bool":
+        return "true" if v[1] else "false"
+    if k == "int":
+        return str(v[1])
+    if k == "dec":
+        return repr(v[1])
+    if k == "str":
+        return json.dumps(v[1], ensure_ascii=r.random() < 0.5)
+    if k == "list":
+        return "[" + ", ".join(_json_text(x, r) for x in v[1]) + "]"
+    items = list(v[1])
+    r.shuffle(items)
+    return "{" + ", ".join("%s: %s" % (json.dumps(kk[1]), _json_text(vv, r)) for kk, vv in items) + "}"
+
+
+def routes_for(v, r):
+    """the same value built along different routes: literals in two orders, parsed from JSON text in two member orders,
+    evaluated from its own text, assembled by library functions, comprehensions and sequences of in-place edits"""
+    S = lambda x: gv.to_source(x, r, r)      # noqa: E731
+    K = lambda x: gv.src_key(x, r, r)        # noqa: E731
+    k = v[0]
+    out = [("literal", S(v)), ("literal-other-order", S(v))]
+    if k in ("list", "set", "map") and _textable(v):
+        out.append(("eval-of-text", "eval(string(%s))" % S(v)))
+    if _jsonable(v) and k in ("list", "map"):
+        out += [("parse_json", "parse_json(%s)" % gv.str_literal(_json_text(v, r), r)), ("parse_json-other-order", "parse_json(%s)" % gv.str_literal(_json_text(v, r), r))]
+    if k == "map":
+        items = list(v[1])
+        r.shuffle(items)
+        pairs = "[" + ", ".join("[%s, %s]" % (S(kk), S(vv)) for kk, vv in items) + "]"
+        out.append(("map-of-pairs", "map(%s)" % pairs))
+        out.append(("comprehension", "<<<p_[0] => p_[1] for p_ in %s>>>" % pairs))
+        r.shuffle(items)
+        out.append(("zip_map", "zip_map([%s], [%s])" % (", ".join(S(kk) for kk, vv in items), ", ".join(S(vv) for kk, vv in items))))
+        r.shuffle(items)
+        out.append(("put-sequence", "do def m_ = <<<>>>; %s m_ end" % "".join("put(m_, %s, %s); " % (S(kk), S(vv)) for kk, vv in items)))
+        r.shuffle(items)
+        out.append(("entry-assignments", "do def m_ = <<<>>>; %s m_ end" % "".join("m_[%s] = %s; " % (S(kk), S(vv)) for kk, vv in items)))
+        if items:
+            extra = items[0]
+            out.append(("put-remove", "do def m_ = %s; put(m_, 'zq_', 0); remove(m_, 'zq_'); remove(m_, %s); put(m_, %s, %s); m_ end" % (S(v), S(extra[0]), S(extra[0]), S(extra[1]))))
+        if all(kk[0] == "str" and kk[1].isidentifier() for kk, vv in items):
+            out.append(("object-and-back", "map(object(%s))" % S(v)))
+    elif k == "set":
+        items = list(v[1])
+        r.shuffle(items)
+        out.append(("set-of-list", "set([%s])" % ", ".join(S(x) for x in items + items[:2])))
+        out.append(("comprehension", "<<x_ for x_ in [%s]>>" % ", ".join(S(x) for x in items)))
+        r.shuffle(items)
+        out.append(("append-sequence", "do def s_ = <<>>; %s s_ end" % "".join("append(s_, %s); " % S(x) for x in items + items[:1])))
+        h = len(items) // 2
+        out.append(("union", "union(<<%s>>, <<%s>>)" % (", ".join(S(x) for x in items[:h + 1]), ", ".join(S(x) for x in items[h:]))))
+        out.append(("plus", "<<%s>> + <<%s>>" % (", ".join(S(x) for x in items[h:]), ", ".join(S(x) for x in items[:h]))))
+        out.append(("minus", "<<%s, 'zq_'>> - <<'zq_'>>" % ", ".join(S(x) for x in items) if items else "<<'zq_'>> - <<'zq_'>>"))
+    elif k == "list":
+        items = list(v[1])
+        h = len(items) // 2
+        out.append(("concatenation", "[%s] + [%s]" % (", ".join(S(x) for x in items[:h]), ", ".join(S(x) for x in items[h:]))))
+        out.append(("spread", "[...[%s], ...[%s]]" % (", ".join(S(x) for x in items[:h]), ", ".join(S(x) for x in items[h:]))))
+        out.append(("append-sequence", "do def l_ = []; %s l_ end" % "".join("append(l_, %s); " % S(x) for x in items)))
+        out.append(("comprehension", "[x_ for x_ in %s]" % S(v)))
+        out.append(("sublist", "sublist(['zq_'] + %s, 1)" % S(v)))
+        out.append(("element-assignments", "do def l_ = [%s]; %s l_ end" % (", ".join("0" for _ in items), "".join("l_[%d] = %s; " % (i, S(x)) for i, x in enumerate(items)))))
+    elif k == "str":
+        t = v[1]
+        h = len(t) // 2
+        out.append(("concatenation", "%s + %s" % (gv.str_literal(t[:h], r), gv.str_literal(t[h:], r))))
+        out.append(("join", "join([%s], '')" % ", ".join(gv.str_literal(c, r) for c in t)))
+        out.append(("string-of-string", "string(%s)" % S(v)))
+        out.append(("element-edits", "do def t_ = %s; t_[0] = ''; t_ end" % gv.str_literal("Z" + t, r)))
+    elif k == "int":
+        out.append(("arithmetic", "(%s + 1) - 1" % S(v)))
+        out.append(("int-of-string", "int('%d')" % v[1]))
+        out.append(("parse_json", "parse_json('%d')" % v[1]))
+    elif k == "dec":
+        if _jsonable(v):
+            out.append(("parse_json", "parse_json('%s')" % repr(v[1])))
+        out.append(("decimal-of-string", "decimal('%s')" % gv.dec_literal(v[1])))
+        out.append(("times-one", "%s * 1" % S(v)))
+    return out
+
+
+def run_routes(spec, ctx):
+    """equal values are interchangeable however they came about"""
+    import ckl.functions
+    r = ctx.rng
+    it, out = core.new_interpreter(secure=True, legacy=True)
+    for i in range(spec["n"]):
+        kinds = ["bool", "int", "dec", "str"] if i % 2 else KINDS_ALL
+        v = gv.gen_value(r, depth=r.choice([1, 2, 2, 3]), kinds=kinds, containers=("list", "map", "map", "set") if i % 2 == 0 else ("list", "map"))
+        if i % 2:
+            # JSON-shaped: maps keyed by strings
+            def strkeys(x):
+                if x[0] == "map":
+                    return ("map", tuple(rv.dedupe_map([(("str", "k%d" % j if kk[0] != "str" else kk[1]), strkeys(vv)) for j, (kk, vv) in enumerate(x[1])])))
+                if x[0] == "list":
+                    return ("list", tuple(strkeys(y) for y in x[1]))
+                return x
+            v = strkeys(v)
+        try:
+            rts = routes_for(v, r)
+        except ValueError:
+            continue
+        vals = []
+        for name, src in rts:
+            o = observe(lambda: it.interpret(src, "c06", ckl.functions.Environment()), 600000)
+            ctx.count("route_evaluations")
+            if o.kind != "value":
+                ctx.count("route_not_usable:" + name)
+                if name == "literal":
+                    ctx.note("literal not usable: %s -> %s %s" % (src[:200], o.kind, core.safe_str(o.exc, 100)))
+                continue
+            vals.append((name, src, o.value))
+        ctx.case(("routes", gv.to_source(v)))
+        pairs = [(a, b) for a in range(len(vals)) for b in range(len(vals)) if a < b]
+        r.shuffle(pairs)
+        for a, b in pairs[:10]:
+            (n1, s1, c1), (n2, s2, c2) = vals[a], vals[b]
+            env = ckl.functions.Environment()
+            env.put("c1", c1)
+            env.put("c2", c2)
+            o = observe(lambda: it.interpret(
+                "[c1 == c2, c2 == c1, c2 in <<c1>>, length(<<c1, c2>>) == 1, <<<identity(c1) => 'v'>>>[c2, 'missing'] == 'v', <<c1, 1>> == <<c2, 1>>, "
+                "do def s_ = <<c1>>; remove(s_, c2); length(s_) == 0 catch all 'raised' end, c2 in [c1], find(['zq_', c1], c2) == 1, [c1] == [c2], "
+                "string(c1) == string(c2), type(c1) == type(c2), not (c1 != c2), compare(c1, c2) == 0]", "c06", env), 600000)
+            ctx.count("route_pairs")
+            ctx.count("program_evaluations")
+            txt = core.safe_str(o.value if o.kind == "value" else o.exc, 300)
+            if o.kind != "value" or txt != "[" + ", ".join(["TRUE"] * 14) + "]":
+                ctx.violation("C06:routes:%s/%s:%s" % (n1, n2, v[0]),
+                              "c1 = %s and c2 = %s are the same value, but [==, ==, in set, set size 1, map lookup, set ==, remove, in list, find, list ==, same text, same type, not !=, compare 0] = %s" % (
+                                  s1[:300], s2[:300], txt), {"c1": s1, "c2": s2})
+    ctx.sample({"routes_example": [n for n, s_ in routes_for(("map", ((("str", "a"), ("int", 1)),)), r)]})
+
+
 def run_large(spec, ctx):
     """containers of 17..600 members built in two different orders (API and programs): equal, equal hashes, each a
     member of the set holding the other, found as a map key, removable; list difference and membership with long
@@ -500,6 +665,10 @@ def run_shard(spec, ctx):
         return suite.run_suite(ctx, "C06", "M2")
     if spec["kind"] == "large":
         return run_large(spec, ctx)
+    if spec["kind"] == "routes":
+        run_routes(spec, ctx)
+        valuelaws.MONITOR.drain(ctx, "C06")
+        return
     if spec["kind"] == "mutseq":
         run_mutation_sequences(spec, ctx)
         valuelaws.MONITOR.drain(ctx, "C06")
